@@ -83,6 +83,7 @@ mod c_msg;
 mod c_server;
 mod c_client;
 mod c_hs;
+mod c_interop;
 
 fn run_case(line: &str) -> String {
     let mut it = line.splitn(2, ' ');
@@ -109,6 +110,7 @@ fn run_case(line: &str) -> String {
         "server" => c_server::run(rest),
         "client" => c_client::run(rest),
         "hs" => c_hs::run(rest),
+        "interop" => c_interop::run(rest),
         _ => format!("HARNESS-UNKNOWN-COMPONENT {}", comp),
     }
 }
